@@ -339,8 +339,8 @@ def discharge(prelude: List[Any], obligations: List[Any], timeout: float = 10.0,
                 list(ex.map(job, work))
         return [(idx, r, ob) for idx, r, ob, _ in work if r.status != "unsat"]
 
-    vac_items = [it for it in open_items if it[1].kind == "vacuity"]
-    open_items = [it for it in open_items if it[1].kind != "vacuity"]
+    vac_items = [it for it in open_items if it[1].kind.startswith("vacuity")]
+    open_items = [it for it in open_items if not it[1].kind.startswith("vacuity")]
     # vacuity guards (goal False): only a contradiction (`unsat`) matters; one quick full query each
     run_round(vac_items, False, min(timeout, 2.0), backends[:1], "")
     direct = []
